@@ -20,9 +20,31 @@ class NDCubeSlicingMixin(NDSlicingMixin):
             raise IndexError("None indices not supported")
 
         item = tuple(sanitize_slices(item, len(self.shape)))
+        # The data are sliced with numpy semantics but the WCS slicing does not interpret
+        # negative or out-of-range values, so express the item relative to the array shape
+        # first to keep the two in step.
+        item = tuple(self._normalize_axis_item(axis_item, int(axis_length))
+                     for axis_item, axis_length in zip(item, self.shape))
         sliced_cube = super().__getitem__(item)
 
         sliced_cube._global_coords._internal_coords = self.global_coords._internal_coords
         sliced_cube._extra_coords = self.extra_coords[item]
 
         return sliced_cube
+
+    @staticmethod
+    def _normalize_axis_item(axis_item, axis_length):
+        """
+        Express an integer or slice relative to the start of an axis of given length.
+        """
+        if isinstance(axis_item, slice):
+            start, stop, _ = axis_item.indices(axis_length)
+            return slice(None if axis_item.start is None else start,
+                         None if axis_item.stop is None else stop,
+                         axis_item.step)
+        index = int(axis_item)
+        if index < 0:
+            index += axis_length
+        if not 0 <= index < axis_length:
+            raise IndexError(f"index {axis_item} is out of bounds for axis with size {axis_length}")
+        return index
